@@ -289,7 +289,7 @@ class C19(PropertyCheck):
         # the cropped-away padding bytes 0xFF / random / = palette size; and the converse: one visible index outside -> error (model-compared)
         psizes = [(1, 1), (3, 2), (7, 4), (8, 3), (9, 5), (12, 4), (13, 7), (8, 4), (16, 8), (17, 9), (31, 30), (33, 1), (63, 63), (64, 61)]
         if thorough:
-            psizes += [(rng.randrange(1, 65), rng.randrange(1, 65)) for _ in range(300)]
+            psizes += [(rng.randrange(1, 65), rng.randrange(1, 65)) for _ in range(60)]
         for (w, h) in psizes:
             n = texref.ci8_data_size(w, h)
             visible = set(texref.ci8_index(w, x, y) for y in range(h) for x in range(w))
